@@ -472,7 +472,10 @@ class Repo:
 
     def site(self, node):
         m = self.module_of(node)
-        f = self.enclosing_func(node)
+        f = getattr(node, '_func', None) or self.enclosing_func(node)
+        if f is None and getattr(node, '_cls', None) is not None:
+            return '{}:{} (class {})'.format(
+                m.relpath, getattr(node, 'lineno', 0), node._cls.qualname)
         return '{}:{} ({})'.format(m.relpath, getattr(node, 'lineno', 0),
                                    f.qualname if f else '<module>')
 
